@@ -1,6 +1,7 @@
 import TenpyModel.C12.P2_T2O
 import TenpyModel.C12.P2_Fill2
 import TenpyModel.C12.P2_C2JW5
+import TenpyModel.C12.P2_GroupedRing
 /-!
 # C12 — property theorems, second part
 
@@ -194,33 +195,6 @@ example :
 
 /-! ## `GroupedSite.__init__`: the operator table -/
 
-namespace TenpyModel.C12
-
-/-- Kronecker factor on sub-site `k` described by a Jordan–Wigner image (`[]` = identity) -/
-def kronFactor : Word → String
-  | [] => "Id"
-  | x :: _ => x
-
-/-- the grouped operator for operator `o` of sub-site `i` (of `n`): on every sub-site `k` the factor
-is what the Jordan–Wigner image of `o` at position `i` *within the group* puts there -/
-def gopOf (n i : Nat) (lbl : String) (o : SubOp) : GOp :=
-  ⟨o.name ++ lbl, o.needJW, o.hc.map (· ++ lbl),
-   (List.range n).map (fun (k : Nat) => kronFactor (imgAt (k : Int) ([o.name], (i : Int), o.needJW)))⟩
-
-theorem kronFactor_img (k i : Nat) (name : String) (odd : Bool) :
-    kronFactor (imgAt (k : Int) ([name], (i : Int), odd)) =
-      if k = i then name else if k < i ∧ odd then "JW" else "Id" := by
-  unfold imgAt
-  by_cases h1 : k = i
-  · simp [h1, kronFactor]
-  · have h1' : ¬ ((k : Int) = (i : Int)) := by omega
-    by_cases h2 : k < i ∧ odd = true
-    · have h2' : (k : Int) < (i : Int) ∧ odd = true := ⟨by omega, h2.2⟩
-      simp [h1, h1', h2, h2', kronFactor]
-    · have h2' : ¬ ((k : Int) < (i : Int) ∧ odd = true) := fun h => h2 ⟨by omega, h.2⟩
-      simp only [h1', if_false, h2', h1, h2, kronFactor]
-
-end TenpyModel.C12
 
 /-- **The operator table of `GroupedSite`, for any number `n` of grouped sites**: besides `Id`
 (all factors `Id`) and `JW` (all factors `JW`: the sign of the group is the product of the signs),
@@ -271,6 +245,25 @@ example :
        ("C_2", true, some "Cd_2", ["JW", "JW", "C"]), ("N_2", false, some "N_2", ["Id", "Id", "N"])] := by
   decide
 
+
+/-- **The grouped operator as an element of the algebra** (any ring, any local signs `s`, any number
+`n` of grouped sites, grouped site number `m`, sub-site `i < n`): multiplying the Kronecker factors
+of the table entry in order — `x` on sub-site `i`, the sign `s (m n + k)` for a factor `JW` on
+sub-site `k`, `1` for `Id` — gives `groupedOp` (the JW of the sub-sites to the left times `x` if the
+operator is odd); hence (`C12_grouped_JW`) its Jordan–Wigner image on the coarse chain is the image of
+`x` on site `m n + i` of the original chain. -/
+theorem C12_grouped_ops_ring {A : Type} [Ring A] (s : Nat → A) (n m i : Nat) (hi : i < n) (x : A)
+    (lbl : String) (o : SubOp) :
+    evalFactors s (m * n) i x 0 (gopOf n i lbl o).factors = groupedOp s n m i o.needJW x ∧
+    jwImage (groupedSign s n) m o.needJW (evalFactors s (m * n) i x 0 (gopOf n i lbl o).factors)
+      = jwImage s (m * n + i) o.needJW x := by
+  have h := eval_gopOf s n m i hi x lbl o
+  exact ⟨h, by rw [h]; exact C12_grouped_JW s n m i o.needJW x⟩
+
+/-- non-vacuity (in `ℤ`, signs `s k = k + 2`): `C` on the last of three sub-sites of grouped site 1
+evaluates to `s 3 * s 4 * 7`. -/
+example : evalFactors (fun k => (k : Int) + 2) (1 * 3) 2 7 0 (gopOf 3 2 "_2" ⟨"C", true, some "Cd"⟩).factors = 5 * 6 * 7 := by
+  decide
 
 /-! ## every filling -/
 
